@@ -512,7 +512,7 @@ def run_verus_ob(build, ob):
     fp = os.path.join(vdir, ob["id"].replace("/", "__") + ".rs")
     with open(fp, "w") as fh:
         fh.write(text)
-    cmd = ["verus", fp, "--output-json", "--time", "--rlimit", str(ob.get("rlimit", 30))]
+    cmd = ["verus", fp, "--output-json", "--time", "--triggers-mode", "silent", "--rlimit", str(ob.get("rlimit", 30))]
     rc, out, dt, to = run_cmd(cmd, vdir, build.env(), ob.get("timeout", 300))
     res = {"id": ob["id"], "backend": "verus", "seconds": round(time.time() - t0, 1), "cmd": " ".join(cmd),
            "failed": [], "checks": 0, "extraction_rules": rules, "extracted_sha": sha(text.encode())[:16]}
